@@ -229,9 +229,23 @@ func (vm *VM) FindElement(name *IDName) (Element, error) {
 	}
 	elem := scope.GetValue(nameStr)
 	if elem == nil {
+		// a method that is executed outside of its module's own run (it was imported) still
+		// sees the methods and types its module defines
+		if exportElem := vm.findCurrentModuleExport(nameStr); exportElem != nil {
+			return exportElem, nil
+		}
 		return nil, zerr.NameNotDefined(nameStr)
 	}
 	return elem, nil
+}
+
+func (vm *VM) findCurrentModuleExport(nameStr string) Element {
+	if module := vm.GetCurrentModule(); module != nil {
+		if elem, err := module.GetExportValue(nameStr); err == nil {
+			return elem
+		}
+	}
+	return nil
 }
 
 func (vm *VM) FindElementWithModule(name *IDName) (Element, *Module, error) {
@@ -247,6 +261,9 @@ func (vm *VM) FindElementWithModule(name *IDName) (Element, *Module, error) {
 	}
 	elem, moduleID := scope.GetValueWithModuleID(nameStr)
 	if elem == nil {
+		if exportElem := vm.findCurrentModuleExport(nameStr); exportElem != nil {
+			return exportElem, vm.GetCurrentModule(), nil
+		}
 		return nil, nil, zerr.NameNotDefined(nameStr)
 	}
 
